@@ -79,6 +79,19 @@ def _one(args):
                         if not close(got, R(exp[key])):
                             out.append(({"fn": fname, "kind": "value", "weighted": weighted, "enc": repr((neg, pos, pl))},
                                         f"{fname} = {got!r}, specification says {exp[key]}", {"y_true": yt, "y_pred": yp, "kwargs": repr(k2)}))
+                # predictions stored with a narrow dtype (bool / uint8): the value of the metric does not depend on the storage type
+                if oi == 0 and (neg, pos) == (0, 1) and pl is None:
+                    for dt in (bool, np.uint8, np.int8):
+                        for fname, key in (("mean_prediction", "mean"), ("selection_rate", "sel")):
+                            try:
+                                k3 = {"sample_weight": list(wts)} if weighted else {}
+                                got = getattr(fm, fname)(np.array(yt), np.array(yp).astype(dt), **k3)
+                                nevals += 1
+                                e = R(case[("w" if weighted else "u")][key])
+                                if np.ndim(got) != 0 or not close(got, e):
+                                    out.append(({"fn": fname, "kind": "value", "dtype": np.dtype(dt).name, "weighted": weighted}, f"{fname} on {np.dtype(dt).name} predictions = {got!r}, specification {e}", {"y_pred": yp}))
+                            except Exception as e2:
+                                out.append(({"fn": fname, "kind": "exception", "dtype": np.dtype(dt).name}, f"{fname} on {np.dtype(dt).name} predictions raised {e2!r}", {"y_pred": yp}))
                 # predictions / weights handed over as a column vector (n, 1) - also for n = 1
                 if oi == 0 and not isinstance(neg, str):
                     for fname, kw2, expv in (("selection_rate", dict(pos_label=pos if pl is None else pl), None), ("mean_prediction", {}, "mean")):
